@@ -173,6 +173,25 @@ pub fn error_exit(source: &str, description: &str) -> ! {
     std::process::exit(2);
 }
 
+/// Opens an entry whose content (or extended attributes) is going to be read. Only regular files and
+/// directories are opened: opening a FIFO would block until somebody writes to it, a device may never end.
+pub fn open_for_reading(path: &Path) -> io::Result<File> {
+    let metadata = fs::metadata(path)?;
+
+    if metadata.is_file() || metadata.is_dir() {
+        File::open(path)
+    } else {
+        Err(io::Error::new(io::ErrorKind::InvalidInput, "not a regular file"))
+    }
+}
+
+/// The MIME type guessed from the content of a regular file or directory (nothing else is opened).
+pub fn get_mime(path: &Path) -> Option<&'static str> {
+    open_for_reading(path).ok()?;
+
+    tree_magic_mini::from_filepath(path)
+}
+
 pub fn get_extension(s: &str) -> String {
     match Path::new(s).extension() {
         Some(ext) => ext.to_string_lossy().to_string(),
@@ -526,6 +545,8 @@ pub fn get_metadata(entry: &DirEntry, follow_symlinks: bool) -> Option<Metadata>
 }
 
 pub fn get_mp3_metadata(entry: &DirEntry) -> Option<MP3Metadata> {
+    open_for_reading(&entry.path()).ok()?;
+
     match mp3_metadata::read_from_file(entry.path()) {
         Ok(mp3_meta) => Some(mp3_meta),
         _ => None,
@@ -533,7 +554,7 @@ pub fn get_mp3_metadata(entry: &DirEntry) -> Option<MP3Metadata> {
 }
 
 pub fn get_exif_metadata(entry: &DirEntry) -> Option<HashMap<String, String>> {
-    if let Ok(file) = File::open(entry.path()) {
+    if let Ok(file) = open_for_reading(&entry.path()) {
         if let Ok(reader) = exif::Reader::new().read_from_container(&mut BufReader::new(&file)) {
             let mut exif_info = HashMap::new();
 
@@ -619,7 +640,7 @@ fn parse_location_string(s: String, location_ref: String, modifier_value: &str) 
 }
 
 pub fn is_shebang(path: &PathBuf) -> bool {
-    if let Ok(file) = File::open(path) {
+    if let Ok(file) = open_for_reading(path) {
         let mut buf_reader = BufReader::new(file);
         let mut buf = vec![0; 2];
         if buf_reader.read_exact(&mut buf).is_ok() {
@@ -659,7 +680,7 @@ pub fn is_hidden(file_name: &str, metadata: &Option<Metadata>, archive_mode: boo
 }
 
 pub fn get_line_count(entry: &DirEntry) -> Option<usize> {
-    if let Ok(file) = File::open(entry.path()) {
+    if let Ok(file) = open_for_reading(&entry.path()) {
         let mut reader = BufReader::with_capacity(1024 * 32, file);
         let mut count = 0;
 
@@ -687,7 +708,7 @@ pub fn get_line_count(entry: &DirEntry) -> Option<usize> {
 }
 
 pub fn get_sha1_file_hash(entry: &DirEntry) -> String {
-    if let Ok(mut file) = File::open(entry.path()) {
+    if let Ok(mut file) = open_for_reading(&entry.path()) {
         let mut hasher = sha1::Sha1::new();
         if io::copy(&mut file, &mut hasher).is_ok() {
             let hash = hasher.finalize();
@@ -699,7 +720,7 @@ pub fn get_sha1_file_hash(entry: &DirEntry) -> String {
 }
 
 pub fn get_sha256_file_hash(entry: &DirEntry) -> String {
-    if let Ok(mut file) = File::open(entry.path()) {
+    if let Ok(mut file) = open_for_reading(&entry.path()) {
         let mut hasher = sha2::Sha256::new();
         if io::copy(&mut file, &mut hasher).is_ok() {
             let hash = hasher.finalize();
@@ -711,7 +732,7 @@ pub fn get_sha256_file_hash(entry: &DirEntry) -> String {
 }
 
 pub fn get_sha512_file_hash(entry: &DirEntry) -> String {
-    if let Ok(mut file) = File::open(entry.path()) {
+    if let Ok(mut file) = open_for_reading(&entry.path()) {
         let mut hasher = sha2::Sha512::new();
         if io::copy(&mut file, &mut hasher).is_ok() {
             let hash = hasher.finalize();
@@ -723,7 +744,7 @@ pub fn get_sha512_file_hash(entry: &DirEntry) -> String {
 }
 
 pub fn get_sha3_512_file_hash(entry: &DirEntry) -> String {
-    if let Ok(mut file) = File::open(entry.path()) {
+    if let Ok(mut file) = open_for_reading(&entry.path()) {
         let mut hasher = sha3::Sha3_512::new();
         if io::copy(&mut file, &mut hasher).is_ok() {
             let hash = hasher.finalize();
